@@ -99,12 +99,21 @@ func (i *imports) Imports() []Import {
 	return imps
 }
 
+// decorateImport replaces the alias by the registered import.
+// The alias must be equal to the whole first segment of the given path,
+// e.g. for the alias "viper" => "github.com/spf13/viper":
+//
+//	"viper"        => "github.com/spf13/viper"
+//	"viper/remote" => "github.com/spf13/viper/remote"
+//	"viperx"       => "viperx"
 func (i *imports) decorateImport(imp string) string {
-	for shortcut, path := range i.prefixes {
-		if strings.Index(imp, shortcut) == 0 {
-			return strings.Replace(imp, shortcut, path, 1)
-		}
+	first, rest, _ := strings.Cut(imp, "/")
+	path, ok := i.prefixes[first]
+	if !ok {
+		return imp
 	}
-
-	return imp
+	if len(first) == len(imp) {
+		return path
+	}
+	return path + "/" + rest
 }
